@@ -123,6 +123,7 @@ func parseArg(tok string) (*pb.Arg, error) {
 			if j := strings.Index(name, "-"); j >= 0 {
 				name, rest = name[:j], name[j:]
 			}
+			rest = propRealIndex(name, rest)
 			if c, ok := contractAddrs[name]; ok {
 				return pb.String(c.Address().String() + rest), nil
 			}
@@ -214,4 +215,40 @@ func fullSvc(s string) string {
 func proofHash(proof []byte) []byte {
 	h := sha256.Sum256(proof)
 	return h[:]
+}
+
+// Proposal references.  A generator numbers the proposals of a creator by counting its submission ATTEMPTS (`@adm0-2` = the
+// third attempt of adm0), the contract numbers them by counting the successful ones.  The op `propose <creator>` announces that
+// the next block carries an attempt; after that block the harness looks whether the creator's proposal count went up and
+// remembers which real index (if any) the attempt got.  References in later ops are translated, real ids in observations
+// are translated back, so that generator, monitors and replay files all speak the generator's numbering.
+var propMap = map[string]map[int]int{} // creator -> attempt index -> real index (-1: the attempt created nothing)
+var propNext = map[string]int{}        // creator -> next attempt index
+
+func propRealIndex(name, rest string) string {
+	m, ok := propMap[name]
+	if !ok || !strings.HasPrefix(rest, "-") {
+		return rest
+	}
+	k, err := strconv.Atoi(rest[1:])
+	if err != nil {
+		return rest
+	}
+	if real, ok := m[k]; ok {
+		if real < 0 {
+			return "-999999"
+		}
+		return "-" + strconv.Itoa(real)
+	}
+	return rest
+}
+
+// propGenIndex translates a real proposal index of a creator back into the generator's numbering
+func propGenIndex(name string, real int) int {
+	for g, r := range propMap[name] {
+		if r == real {
+			return g
+		}
+	}
+	return real
 }
